@@ -398,4 +398,59 @@ theorem parseDuration_range (s : List UInt8) (d : Int) (h : parseDuration s = so
           have hb := durNanos_bound _ _ ns d2 hns
           apply durClamp_range <;> omega
 
+/-! ### when shouldRetry retries (C18) -/
+
+theorem sr_backoff_conditions (dis : Bool) (pol : Option Policy) (cs : CS) (a : Attempt) (r : ℚ) (dur : Int) (fp : Bool)
+    (h : (shouldRetry dis pol cs a r).2 = .backoff dur fp) :
+    ∃ pb rp, stage dis pol cs a = .charged pb ∧ pol = some rp ∧
+      (throttleOpt cs.throttler).2 = false ∧ cs.numRetries + 1 < rp.maxAttempts := by
+  cases hs : stage dis pol cs a with
+  | early =>
+    rw [shouldRetry_staged] at h; unfold stagedResult at h; rw [hs] at h
+    simp only at h; split_ifs at h
+  | abortPushback => rw [sr_abort dis pol cs a r hs] at h; cases h
+  | notRetryable => rw [shouldRetry_staged] at h; unfold stagedResult at h; rw [hs] at h; cases h
+  | charged pb =>
+    obtain ⟨rp, hp, heq⟩ := sr_charged_decision dis pol cs a r pb hs
+    rw [heq] at h
+    unfold chargedResult at h
+    split_ifs at h with h1 h2
+    refine ⟨pb, rp, rfl, hp, by simpa using h1, by omega⟩
+
+theorem chargedResult_not_transparent (rp : Policy) (cs : CS) (pb : Pushback) (r : ℚ) :
+    (chargedResult rp cs pb r).2 ≠ .transparent := by
+  unfold chargedResult
+  split_ifs
+  · simp
+  · simp
+  · cases pb <;> simp
+
+theorem sr_transparent_conditions (dis : Bool) (pol : Option Policy) (cs : CS) (a : Attempt) (r : ℚ)
+    (h : (shouldRetry dis pol cs a r).2 = .transparent) :
+    cs.finished = false ∧ cs.committed = false ∧ a.drop = false ∧
+    ((a.hasStream = false ∧ a.allowTransparent = true) ∨
+     (cs.firstAttempt = true ∧ a.hasStream = true ∧ a.unprocessed = true)) := by
+  rw [shouldRetry_staged] at h
+  unfold stagedResult at h
+  cases hs : stage dis pol cs a with
+  | early =>
+    rw [hs] at h
+    simp only at h
+    split_ifs at h with h1 h2 h3
+    · have h1' : (cs.finished || cs.committed || a.drop) = false := by simpa using h1
+      simp only [Bool.or_eq_false_iff] at h1'
+      refine ⟨h1'.1.1, h1'.1.2, h1'.2, Or.inl ?_⟩
+      simp only [Bool.and_eq_true, Bool.not_eq_true'] at h2; exact h2
+    · have h1' : (cs.finished || cs.committed || a.drop) = false := by simpa using h1
+      simp only [Bool.or_eq_false_iff] at h1'
+      refine ⟨h1'.1.1, h1'.1.2, h1'.2, Or.inr ?_⟩
+      simp only [Bool.and_eq_true] at h3; exact ⟨h3.1, h3.2.1, h3.2.2⟩
+  | abortPushback => rw [hs] at h; cases h
+  | notRetryable => rw [hs] at h; cases h
+  | charged pb =>
+    rw [hs] at h
+    cases pol with
+    | none => cases h
+    | some rp => exact absurd h (chargedResult_not_transparent rp cs pb r)
+
 end GrpcProofs.Lemmas.Retry
